@@ -25,7 +25,8 @@ CLAIMS = {
                 'quantity intervals and byte-count relations, that guard / address failures answer 03 / 02 with the request '
                 'function code, that every setValues is dominated by every guard and by validate(fc, same address, number of '
                 'values written), that no path writes and then answers an exception, that unknown codes yield exception 01 that every front-end maps a datastore exception to 04, and that the block validate() predicates behind the range guard accept a range iff every addressed cell exists. Boundary sweeps over concrete stores are not run.'
-                ' The server decoder owns its tables (a function registered on another server is still answered with 01).',
+                ' The server decoder owns its tables (a function registered on another server is still answered with 01).'
+                " doException() builds the exception answer from the request's own function code and ids; the RTU length oracle sizes every request up to the 256-byte ADU limit (shared with C03).",
         'note': 'Attribute<->wire binding of guarded fields is decided by C01/C02; block range arithmetic by C18. Three genuine '
                 'defects (FC5 value word, FC15 quantity) are listed in known_findings.jsonl.',
         'technique': 'guard/dominance analysis over enumerated paths, interval + affine normal forms (static)',
@@ -36,7 +37,8 @@ CLAIMS = {
                 'under should_respond with the bytes of framer.buildPacket, ids copied before send, response classes carry the '
                 'request function/sub-function code, transport writes reachable only through send<-execute<-framer callback, '
                 'per-connection framer creation, processIncomingPacket call signatures, no deferred scheduling on the response path, and (datagram front-ends) the destination of every reply traced back to the source address of the datagram that carried this request, one datagram per framer call, coherent framer state between calls, and decoder.register() keeping the built-in sub-function dispatch.'
-                ' The asyncio handler is constructed with, and bound to, the server that accepted the connection; the server keeps the context object it was given.',
+                ' The asyncio handler is constructed with, and bound to, the server that accepted the connection; the server keeps the context object it was given.'
+                ' The threaded front-end asks the socket for at least one whole ADU per read; the RTU length oracle sizes maximum-size requests.',
         'note': 'request.execute may raise any Exception, context lookup NoSuchSlaveException; other statements non-raising. '
                 'Byte-exact output streams over request histories are not decided.',
         'technique': 'per-path effect counting over interprocedural path enumeration + who-may-call + signature conformance (static)',
@@ -45,7 +47,8 @@ CLAIMS = {
         'text': 'Decides the unit-filter decision table rows the property fixes, that every non-broadcast path executes once against '
                 'context[request.unit_id], that the broadcast branch (iff broadcast_enable and unit 0) iterates context.slaves() and executes in every iteration, once each, without sending, the gateway exception / silence for absent units, that every receive loop passes '
                 'context.slaves()/context.single and admits unit 0 under broadcast and only then, the server-context routing/id interval, that contexts do not share default blocks, and that no truthiness test can replace the context handed to a server by a default one.'
-                ' The asyncio handler is bound per instance to the server that created it; contexts and blocks own their tables per instance.',
+                ' The asyncio handler is bound per instance to the server that created it; contexts and blocks own their tables per instance.'
+                " slaves() lists every hosted unit on every return path; doException() keeps the request's unit and transaction ids.",
         'note': 'Non-interference between unit datastores at run time follows from these routing facts plus C05 R2; it is not itself decided.',
         'technique': 'decision-table enumeration + path routing analysis + sibling agreement (static)',
     },
@@ -55,7 +58,8 @@ CLAIMS = {
                 'reachable only through Request.execute <- front-end execute; framers/decoders never touch datastores; framers hold no '
                 'class-level mutable state and every connection owns its framer; a framer path that delivers a message without a successful checkFrame is accepted only when restricted to function codes >= 0x80 (they decode to a request that touches no datastore); decode() of every write request reads exactly the declared fields; a framer shared by all peers of a datagram endpoint keeps nothing of an undelivered datagram (with an inductively proved entry invariant of the socket framer). Thorough tier cross-checks the Twisted reactor '
                 'containment assumption against the installed Twisted sources.'
-                ' Cursor loops of the request decoders advance on every path back to the loop test (no request can spin a server thread / event loop); decoder and framer state is per instance; asyncio handlers are bound to their server.',
+                ' Cursor loops of the request decoders advance on every path back to the loop test (no request can spin a server thread / event loop); decoder and framer state is per instance; asyncio handlers are bound to their server.'
+                ' The threaded front-end reads at least a whole ADU per call; hexlify_packets and the __str__ of the library exceptions are total (no TypeError is raised inside an except branch of a serving loop).',
         'note': 'Statements other than the framer call / transport read are treated as non-raising; Twisted containment is an assumption in the quick tier.',
         'technique': 'exception-flow analysis over enumerated paths + call-graph who-may-call (static)',
     },
@@ -63,7 +67,8 @@ CLAIMS = {
         'text': 'Sibling cross-check: the normalised execute / send / receive-loop summaries of all seven front-end variants are compared '
                 'with the reference (sync stream handler); any divergence in exception->response mapping, id copies, send count, context '
                 'key, should_respond gate, payload source or framer-call arguments is reported. Datagram front-ends hand the framer one datagram per call. Stream receive loops must not reset the framer on an iteration without a fault, for every reachable state of their loop-carried flags (fixpoint over the loop body). Broadcast rows are exempt (C10).'
-                ' The asyncio handler reads its server from an instance attribute bound by every constructor path to the server that created it.',
+                ' The asyncio handler reads its server from an instance attribute bound by every constructor path to the server that created it.'
+                " The threaded front-end's read size covers an ADU like the other front-ends; a response class declared should_respond = False stays unsendable on every constructor path.",
         'note': 'Decides agreement of the code summaries, not byte-identical outputs over histories or interleavings.',
         'technique': 'cross-checking sibling implementations via path summaries (static)',
     },
@@ -72,7 +77,8 @@ CLAIMS = {
                 'four necessary conditions of chunking independence: deliveries lie inside a loop that continues after a delivery; on '
                 'every path that takes a data-absence outcome (length too small / end delimiter not found) nothing is discarded, raised '
                 'or delivered afterwards; header truthiness after construction equals that after reset when code branches on it; sizing errors on partial data cannot escape; plus coherence of the state carried between calls (a cached header is reset whenever bytes are dropped from the front of the buffer, addToFrame only appends, no branch looks at the chunk just received). Eight genuine defects of the pinned tree are listed as known findings.'
-                ' A header field that holds a slice of the receive buffer is taken in the call that reads it; framers own their header per instance.',
+                ' A header field that holds a slice of the receive buffer is taken in the call that reads it; framers own their header per instance.'
+                ' hexlify_packets (evaluated on every reset / processing path) is total on byte strings; the RTU length oracle is a function of the frame bytes only.',
         'note': 'Only explicit length / delimiter tests classify as data absence. Equality of delivered sequences over all chunkings is not decided.',
         'technique': 'interprocedural path enumeration with effect classification (buffer shrink / delivery / raise) (static)',
     },
@@ -81,14 +87,16 @@ CLAIMS = {
                 'check with the exact constant on TCP), that the checksum input range starts at the unit byte and ends where the '
                 'delivered PDU ends on the same buffer version, that the check value is read from the two bytes right after it, and that '
                 'checkCRC/checkLRC are equalities with the CRC constants 0xFFFF/0xA001.'
-                ' On TCP every registered decode() consumes exactly the buffer the MBAP length announced or bounds its reads by len(buffer) (19 known findings).',
+                ' On TCP every registered decode() consumes exactly the buffer the MBAP length announced or bounds its reads by len(buffer) (19 known findings).'
+                ' An exception raised while a delivered frame is decoded never ends in a message handed to the callback.',
         'note': 'Error-detection power of CRC-16/LRC and the arithmetic inside computeCRC/computeLRC are outside static reach.',
         'technique': 'must-pass-through (dominance on enumerated paths) + affine slice-range comparison with versioned buffer (static)',
     },
     'C11': {
         'text': 'Decides progress conditions per failure kind on RTU/ASCII/binary: after a failed integrity check, after a foreign-unit '
                 'frame and when garbage precedes a start delimiter the buffer shrinks before the call returns; receive loops reset the framer or end the connection after a framer exception; the garbage skip cuts at the first start delimiter; state carried between calls stays coherent (cached header reset on every front drop, addToFrame only appends). Liveness over all futures and the two-frame bound are not decided.'
-                ' The serial client drains stale input before every request on every framing (shared with C13).',
+                ' The serial client drains stale input before every request on every framing (shared with C13).'
+                ' Every class lookupPduClass can return has a frame size the RTU oracle can compute (no exception other than the caught IndexError leaves it); hexlify_packets is total, so resetFrame() always clears the buffer.',
         'note': 'Necessary conditions only; RTU in-stream resynchronisation is not decided.',
         'technique': 'path enumeration + effect-after-event rules (static)',
     },
@@ -106,7 +114,8 @@ CLAIMS = {
                 '_transact per iteration, no other repeated sender), the retry decision table enumerated over the loop-body paths '
                 'against the documented options (a reply counts as the caller\'s own only under equality of unit ids), exception-flow from _recv/_send through _transact, the five framers and execute '
                 '(what can escape a client call), the clean-exit state / close-on-fault discipline, that the serial client drains stale input before every write for every framing, that a short or empty first read raises, and that the time budget of the client polling loops is fixed before the loop, that every iteration of the RTU send wait loop sets the awaited state or waits on the deadline, and that no transport method closes the socket on a normally returning path.'
-                ' ClientDecoder.decode contains every codec exception; cursor loops of the response decoders advance on every path; manager bookkeeping is per instance.',
+                ' ClientDecoder.decode contains every codec exception; cursor loops of the response decoders advance on every path; manager bookkeeping is per instance.'
+                ' A read of unknown length asks for at least one whole ADU; hexlify_packets and exception texts are total; what an earlier exchange left in the framer is dropped before the next request (shared with C08).',
         'note': 'Wall-clock bounds of blocking transport calls and the correctness of a following transaction are not decided. '
                 'Six genuine defects are listed as known findings.',
         'technique': 'loop-variant extraction + decision-table enumeration + interprocedural exception-flow summaries (static)',
@@ -125,7 +134,8 @@ CLAIMS = {
                 'ordering before buildPacket, 16-bit id arithmetic, routing by reply.transaction_id with removal before callback, the registry returning only the entry stored under the requested id, '
                 'dropping of unsolicited replies, connectionLost clearing the flag before errback-ing a snapshot of all pending entries, '
                 'failed deferred when not connected, FIFO append/pop(0), and the manager selected by a test on the final framer object.'
-                ' The pending-request registry belongs to the manager instance.',
+                ' The pending-request registry belongs to the manager instance.'
+                ' Protocol objects own their framer and registry per instance; the receive call admits every reply in a segment (one known finding: replies are filtered by the unit of the first frame).',
         'note': 'Deferred semantics are Twisted\'s; more than 65535 outstanding requests are out of scope. These rules are regression guards (all hold today).',
         'technique': 'dataflow / ordering rules over enumerated paths (static)',
     },
@@ -135,7 +145,8 @@ CLAIMS = {
                 'calcsize and slice [pointer-n:pointer]; WC table = calcsize; the two word helpers are compared as transformations '
                 '(split into network-order words, reverse iff wordorder Little, re-pack per word with the byte order) which makes them '
                 'an involution pair; register transport formats, build() padding, to_string() = join of the current payload on every path, reset() emptying it, and the string format length taken from the bytes that are packed.'
-                ' The builder owns its payload list; build() is verified by folding its loop range and slice bounds for payload lengths 0..40.',
+                ' The builder owns its payload list; build() is verified by folding its loop range and slice bounds for payload lengths 0..40.'
+                ' The bit helpers behind add_bits / decode_bits return freshly built lists and are not memoised.',
         'note': 'struct is trusted for value-level round trips; these rules decide the layout agreement for all values at once.',
         'technique': 'writer/reader pair table + sibling transformation comparison via value propagation (static)',
     },
@@ -173,7 +184,8 @@ CLAIMS = {
                 'layout of the response class its execute() returns under the constructor binding; diagnostic predictions are compared '
                 'with the number of reply words per sub-function (Modbus-Plus statistics table const-folded); the per-framer overhead, '
                 'exception length, min_size and function-code peek tables are compared with the buildPacket layout summaries; the no-response bookkeeping that selects the read-everything mode lists a unit exactly on an empty reply and releases it on any non-empty one.'
-                ' The list of silent units belongs to one transaction manager.',
+                ' The list of silent units belongs to one transaction manager.'
+                ' The size _recv computed is the size passed to the transport read on every path of the synchronous clients.',
         'note': 'Assumes getValues(fc, a, n) returns n values; binary overhead exact only without delimiter escaping. Two known findings (Modbus Plus predictions).',
         'technique': 'affine comparison of prediction functions with layout-summary lengths (static)',
     },
